@@ -219,6 +219,33 @@ def parse_eval_outputs(stdout: str):
     return vals
 
 
+
+def fragment_deps(v_files):
+    """names g of the generated fragment modules Gen.Frag_<g> that the given .v files import, transitively through the
+    SB3V modules they Require"""
+    seen, groups, todo = set(), set(), list(v_files)
+    while todo:
+        f = todo.pop()
+        if f in seen or not os.path.exists(f):
+            continue
+        seen.add(f)
+        txt = re.sub(r"\(\*.*?\*\)", "", open(f).read(), flags=re.S)
+        for sent in re.split(r"\.\s", txt):
+            m = re.match(r"\s*(?:From\s+(\S+)\s+)?Require\s+(?:Import\s+|Export\s+)?(.*)", sent, flags=re.S)
+            if not m or (m.group(1) not in (None, "SB3V")):
+                continue
+            for mod in m.group(2).split():
+                mod = mod.replace("SB3V.", "")
+                g = re.fullmatch(r"Gen\.Frag_(\w+)", mod)
+                if g:
+                    groups.add(g.group(1))
+                    continue
+                path = os.path.join(COQ, *mod.split(".")) + ".v"
+                if os.path.exists(path):
+                    todo.append(path)
+    return groups
+
+
 class CoqError(Exception):
     pass
 
@@ -401,8 +428,16 @@ class Check:
         # current model / fragments); they are not counted as obligations
         ref_vos = ["Refuted/" + os.path.basename(f)[:-2] + ".vo" for f in sorted(_glob.glob(os.path.join(COQ, "Refuted", f"{self.pid}_*.v")))]
         vo = " ".join(vos)
+        # every fragment group the property files depend on, directly or through imported proofs (e.g. C04 -> Pipeline ->
+        # ReplayProofs -> Gen.Frag_replay), is regenerated from the tree under test: a theorem is only re-established for
+        # this tree when ALL the fragments it rests on come from this tree
+        declared = list(self.groups or [])
+        for g in sorted(fragment_deps(files)):
+            if g not in declared:
+                declared.append(g)
+        self.groups = declared
+        self.notes["fragment_groups"] = declared
         with coq_lock():
-            # only this property's fragment groups are regenerated (none when it has no groups)
             st = gen.regenerate(self.groups if self.groups else ["__no_group__"])
             st.pop("Subproc", None) if not (self.groups and "Subproc" in self.groups) else None
             self.notes["fragments"] = st
